@@ -45,6 +45,9 @@ func TestExhaustiveKinds(t *testing.T) {
 	if err := astx.SelfTest(); err != nil {
 		t.Fatal(err)
 	}
+	if oracle.IDNamesLoaded() < 100 {
+		t.Fatalf("could not read the token id constants from pkg/token/token.go (%d read)", oracle.IDNamesLoaded())
+	}
 	total := 0
 	allSmall := true
 	for ki, s := range astx.Kinds() {
